@@ -211,6 +211,7 @@ func (it Item) String() string {
 // ---- environment --------------------------------------------------------------
 
 type env struct {
+	earlyPong bool // C08: a Pong was sent ahead, behind the last packet of the response
 	conn      *simnet.Conn
 	srv       *simnet.Server
 	serverRev int
